@@ -1,8 +1,12 @@
 package main
 
 import (
+	"encoding/json"
 	"flag"
+	"strings"
+
 	"fmt"
+	"golang.org/x/tools/go/ssa"
 	"os"
 	"runtime/debug"
 	"sort"
@@ -51,6 +55,26 @@ func main() {
 }
 
 func doDump(c *Ctx, what string) {
+	if strings.HasPrefix(what, "table:") {
+		parts := strings.Split(what, ":")
+		var fn *ssa.Function
+		if len(parts) == 3 {
+			fn = c.Func(parts[1], parts[2])
+		} else {
+			fn = c.Method(parts[1], parts[2], parts[3])
+		}
+		opts := SymOpts{}
+		if os.Getenv("NOINLINE") != "" {
+			opts.Inline = func(*ssa.Function) bool { return false }
+		}
+		outs, abort := Enumerate(fn, opts)
+		for _, o := range outs {
+			b, _ := json.MarshalIndent(o.Summary(), "", " ")
+			fmt.Println(string(b))
+		}
+		fmt.Println("paths:", len(outs), "abort:", abort)
+		return
+	}
 	switch what {
 	case "census":
 		cs := BuildCensus(c)
